@@ -68,6 +68,13 @@ class SpecText:
         return "SpecText(%s)" % ",".join(c[0] for c in self.clauses)
 
 
+class UnionText:
+    """'||'.join(str(r) for r in ranges)"""
+
+    def __init__(self, parts):
+        self.parts = parts
+
+
 class SetOfList:
     def __init__(self, alist):
         self.alist = alist
@@ -169,8 +176,10 @@ class VerTheory:
             return VersionText(x.term)
         if z3.is_expr(x) and z3.is_int(x):
             return IntText(x)
-        if isinstance(x, (VersionText, JoinDots, SpecText, EpochText)):
+        if isinstance(x, (VersionText, JoinDots, SpecText, EpochText, UnionText, RelText, IntText, SpecStr)):
             return x
+        if isinstance(x, PkgSpec):
+            return SpecStr(x)
         return None
 
     def str_concat(self, ex, parts):
@@ -231,11 +240,13 @@ class VerTheory:
     def builtin(self, ex, name, args, kw):
         if name == "map" and len(args) == 2 and getattr(args[0], "name", None) == "str" and isinstance(args[1], (AList, SliceView)):
             return MapStr(args[1])
-        if name == "set" and args and isinstance(args[0], (AList, SliceView)):
+        if name == "set" and args and type(args[0]).__name__ in ("AList", "SliceView", "ConcatView"):
             return SetOfList(args[0])
         return NotImplemented
 
     def method_builtin(self, ex, recv, name, args, kw):
+        if name == "join" and recv == "||" and args and isinstance(args[0], list):
+            return UnionText(list(args[0]))
         if name == "join" and recv == "." and args and isinstance(args[0], MapStr):
             seq = args[0].seq
             if isinstance(seq, SliceView):
@@ -245,6 +256,21 @@ class VerTheory:
 
     def coerce_eq(self, l, r):
         return l, r
+
+    def getattr_other(self, ex, o, attr):
+        if isinstance(o, PkgSpec) and attr in ("operator", "version"):
+            return getattr(o, attr)
+        return None
+
+    def contains_other(self, ex, container, item):
+        if isinstance(container, (VersionText, RelText)) and item == "*":
+            return isinstance(container, RelText) and container.wild
+        return None
+
+    def slice_other(self, ex, base, lo, hi):
+        if isinstance(base, RelText) and base.wild and lo is None and hi == -2:
+            return RelText(base.epoch, base.ints, False)
+        return None
 
     def call_other(self, ex, f, args, kw):
         if isinstance(f, _VersionCtor):
@@ -265,6 +291,20 @@ class VerTheory:
                              z3.ForAll([i], z3.Implies(z3.And(0 <= i, i < ints.n), z3.Select(V.rel(t), i) == z3.Select(ints.arr, i)))))
             return AbsObj(t, self)
         raise OutsideSubset(f"Version({text!r})")
+
+
+class PkgSpec:
+    """a packaging.specifiers.Specifier: operator (concrete) and version text; `wild` for the X.* forms"""
+
+    def __init__(self, operator, version_text):
+        self.operator, self.version = operator, version_text
+
+
+class SpecStr:
+    """str(spec) of a packaging Specifier (the original clause text)"""
+
+    def __init__(self, spec):
+        self.spec = spec
 
 
 class IntText:
